@@ -56,6 +56,9 @@ pub struct FileSpec {
 	pub user_meta: Vec<(String, Vec<u8>)>,
 	pub ops: Vec<Op>,
 	pub end: End,
+	/// build the writer with `WriterBuilder::with_owned_config` instead of `WriterBuilder::new(&mut config)`
+	#[serde(default)]
+	pub owned_config: bool,
 }
 
 pub fn blob(len: u32, seed: u64, compressible: bool) -> Vec<u8> {
@@ -125,8 +128,17 @@ pub fn run_writer(spec: &FileSpec, sink: &SimSink, mut observe: impl FnMut(&Step
 	let mut config = SerializerConfig::new(&schema);
 	config.allow_slow_sequence_to_bytes();
 	let meta: BTreeMap<String, ByteBuf> = spec.user_meta.iter().map(|(k, v)| (k.clone(), ByteBuf::from(v.clone()))).collect();
+	let mut owned_slot = None;
+	if spec.owned_config {
+		let mut c = SerializerConfig::new(&schema);
+		c.allow_slow_sequence_to_bytes();
+		owned_slot = Some(c);
+	}
 	let built = catch(|| {
-		WriterBuilder::new(&mut config)
+		match owned_slot.take() {
+			Some(c) => WriterBuilder::with_owned_config(c),
+			None => WriterBuilder::new(&mut config),
+		}
 			.compression(to_crate_compression(spec.codec))
 			.approx_block_size(spec.approx_block_size)
 			.sync_marker(spec.sync)
@@ -673,6 +685,7 @@ pub fn gen_filespec(rng: &mut Rng, p: &SpecProfile) -> FileSpec {
 		user_meta: gen_user_meta(rng),
 		ops,
 		end: if rng.bool() { End::IntoInner } else { End::Drop },
+		owned_config: rng.chance(1, 4),
 	}
 }
 
@@ -709,6 +722,7 @@ fn gen_blob_spec(rng: &mut Rng, codec: Codec) -> FileSpec {
 		user_meta: vec![],
 		ops,
 		end: if rng.bool() { End::IntoInner } else { End::Drop },
+		owned_config: rng.chance(1, 4),
 	}
 }
 
@@ -857,6 +871,9 @@ pub fn exec_c11_container(scn: &c11::Scn, valid: bool, out: &mut Outcome) {
 	for kind in &plans {
 		let r = read_file(&scn.bytes, &env, &scn.schema, &RKind::Sim(kind.clone()), &[], budget);
 		out.evals += 1;
+		if std::env::var("VERIF_DEBUG").is_ok() {
+			eprintln!("slice: {:?}\nreader {}: {:?}", slice.items, kind.label(), r.items);
+		}
 		let st = r.source.clone().unwrap_or_default();
 		out.steps += st.calls;
 		digest.str(&r.shape()).u64(st.digest);
@@ -903,8 +920,14 @@ pub fn exec_c11_container(scn: &c11::Scn, valid: bool, out: &mut Outcome) {
 			}
 		} else {
 			// damaged input: whole-stream outcome class + prefix relation (DESIGN §7.1)
-			let a = slice.values();
-			let b = r.values();
+			// values up to the first error only: after a value-level error the position inside the (corrupted)
+			// block is unspecified — it depends on whether the failing field was served from the buffer
+			// (not consumed) or through the scratch copy (consumed) — and consumption on Err is not compared
+			let upto_err = |run: &ReadRun| -> Vec<Val> {
+				run.items.iter().take_while(|i| !matches!(i, Item::Err { .. })).filter_map(|i| if let Item::Val(v) = i { Some(v.clone()) } else { None }).collect()
+			};
+			let a = upto_err(&slice);
+			let b = upto_err(&r);
 			let n = a.len().min(b.len());
 			if a[..n] != b[..n] {
 				out.fail(
